@@ -345,17 +345,28 @@ func (repo *BlockRepository) Revert(ctx context.Context, height int) error {
 	repo.mutex.Lock()
 	defer repo.mutex.Unlock()
 
+	if height < 0 {
+		return errors.New(fmt.Sprintf("Revert height %d is negative", height))
+	}
+
 	if height > repo.height {
 		return errors.New(fmt.Sprintf("Revert height %d above current height %d", height, repo.height))
 	}
 
-	// Revert heights map
+	// Save the latest key so the stored file matches the cached headers before it is truncated.
+	if err := repo.save(ctx); err != nil {
+		return errors.Wrap(err, "Failed to save")
+	}
+
+	// Find the hashes to remove from the heights map. The map is only updated after the storage
+	// has been reverted so a failure leaves the cached state unchanged.
+	removedHashes := make([]bitcoin.Hash32, 0, repo.height-height)
 	for removeHeight := repo.height; removeHeight > height; removeHeight-- {
 		hash, err := repo.getHash(ctx, removeHeight)
 		if err != nil {
 			return errors.Wrap(err, "Failed to revert block heights map")
 		}
-		delete(repo.heights, *hash)
+		removedHashes = append(removedHashes, *hash)
 	}
 
 	// Height of last block of latest full file
@@ -388,7 +399,7 @@ func (repo *BlockRepository) Revert(ctx context.Context, height int) error {
 	}
 
 	// Cache needs to be reset with last file's state.
-	repo.lastHeaders = make([]wire.BlockHeader, 0, blocksPerKey)
+	headers := make([]wire.BlockHeader, 0, blocksPerKey)
 	buf := bytes.NewBuffer(data)
 	header := wire.BlockHeader{}
 	for buf.Len() > 0 {
@@ -396,8 +407,13 @@ func (repo *BlockRepository) Revert(ctx context.Context, height int) error {
 		if err != nil {
 			return errors.Wrap(err, fmt.Sprintf("Failed to parse latest block data during truncate : %s", path))
 		}
-		repo.lastHeaders = append(repo.lastHeaders, header)
+		headers = append(headers, header)
 	}
+
+	for _, hash := range removedHashes {
+		delete(repo.heights, hash)
+	}
+	repo.lastHeaders = headers
 	repo.height = height
 	return nil
 }
